@@ -101,9 +101,34 @@ Qed.
 
 (* ---------------- syncWorkers ---------------- *)
 
-Lemma sync_new_keys ds old : keys (fst (sync_new ds old)) = keys ds.
+Lemma sync_new_keys_sub ns ds old : forall n, In n (keys (fst (sync_new ns ds old))) -> In n (keys ds).
 Proof.
-  induction ds as [|[n d] ds IH]; cbn; [reflexivity|]. destruct (sync_new ds old) as [ws ret]. cbn in *.
+  induction ds as [|[n0 d] ds IH]; cbn [sync_new]; intros n Hin; [contradiction|].
+  destruct (sync_new ns ds old) as [ws ret]. cbn [fst] in IH.
+  destruct (lookup n0 old) as [w|].
+  - destruct (Nat.eqb (sw_state (if Nat.eqb (sd_id d) (sw_desc w) then w else stop_gracefully w)) 2).
+    + destruct (in_names n0 ns); cbn in Hin; [right; exact (IH n Hin)|]. destruct Hin as [H|H]; [left; exact H|right; exact (IH n H)].
+    + cbn in Hin. destruct Hin as [H|H]; [left; exact H|right; exact (IH n H)].
+  - destruct (in_names n0 ns); cbn in Hin; [right; exact (IH n Hin)|]. destruct Hin as [H|H]; [left; exact H|right; exact (IH n H)].
+Qed.
+
+Lemma sync_new_nodup ns ds old : NoDup (keys ds) -> NoDup (keys (fst (sync_new ns ds old))).
+Proof.
+  induction ds as [|[n0 d] ds IH]; cbn [sync_new]; intros ND; [constructor|].
+  cbn [keys map fst] in ND. inversion ND as [|? ? Hnin ND']; subst. specialize (IH ND').
+  pose proof (sync_new_keys_sub ns ds old) as Hsub. destruct (sync_new ns ds old) as [ws ret]. cbn [fst] in *.
+  assert (Hc : NoDup (keys ((n0, mkW 0 0 true) :: ws)) -> forall e, NoDup (keys ((n0, e) :: ws))) by (intros H e; exact H).
+  assert (Hn : NoDup (n0 :: keys ws)) by (constructor; [intros H; apply Hnin; exact (Hsub n0 H)|exact IH]).
+  destruct (lookup n0 old) as [w|].
+  - destruct (Nat.eqb (sw_state (if Nat.eqb (sd_id d) (sw_desc w) then w else stop_gracefully w)) 2).
+    + destruct (in_names n0 ns); [exact IH|exact Hn].
+    + exact Hn.
+  - destruct (in_names n0 ns); [exact IH|exact Hn].
+Qed.
+
+Lemma sync_new_keys ds old : keys (fst (sync_new [] ds old)) = keys ds.
+Proof.
+  induction ds as [|[n d] ds IH]; cbn; [reflexivity|]. destruct (sync_new [] ds old) as [ws ret]. cbn in *.
   destruct (lookup n old) as [w|]; [|cbn; f_equal; exact IH].
   destruct (Nat.eqb (sw_state (if Nat.eqb (sd_id d) (sw_desc w) then w else stop_gracefully w)) 2); cbn; f_equal; exact IH.
 Qed.
@@ -116,11 +141,11 @@ Definition new_entry (d : sdesc) (ow : option sworker) : sworker :=
   end.
 
 Lemma sync_new_lookup ds old : NoDup (keys ds) -> forall n d, In (n, d) ds ->
-  lookup n (fst (sync_new ds old)) = Some (new_entry d (lookup n old)).
+  lookup n (fst (sync_new [] ds old)) = Some (new_entry d (lookup n old)).
 Proof.
   induction ds as [|[n0 d0] ds IH]; intros ND n d Hin; [contradiction|].
-  cbn [keys map fst] in ND. inversion ND as [|? ? Hnin ND']; subst. cbn [sync_new].
-  destruct (sync_new ds old) as [ws ret] eqn:Es. destruct Hin as [Heq|Hin].
+  cbn [keys map fst] in ND. inversion ND as [|? ? Hnin ND']; subst. cbn [sync_new in_names existsb].
+  destruct (sync_new [] ds old) as [ws ret] eqn:Es. destruct Hin as [Heq|Hin].
   - inversion Heq; subst. unfold new_entry. destruct (lookup n old) as [w|]; [|cbn; rewrite Nat.eqb_refl; reflexivity].
     destruct (Nat.eqb (sw_state (if Nat.eqb (sd_id d) (sw_desc w) then w else stop_gracefully w)) 2); cbn; rewrite Nat.eqb_refl; reflexivity.
   - assert (Hne : n0 <> n).
@@ -132,15 +157,6 @@ Proof.
     + cbn. destruct (Nat.eqb_spec n0 n); [contradiction|exact IH].
 Qed.
 
-Lemma sync_new_retired ds old : forall n w, In (n, w) (snd (sync_new ds old)) -> sw_state w = 2.
-Proof.
-  induction ds as [|[n0 d0] ds IH]; intros n w Hin; [contradiction|]. cbn [sync_new] in Hin.
-  destruct (sync_new ds old) as [ws ret]. cbn [snd] in IH.
-  destruct (lookup n0 old) as [w0|]; [|exact (IH n w Hin)].
-  destruct (Nat.eqb_spec (sw_state (if Nat.eqb (sd_id d0) (sw_desc w0) then w0 else stop_gracefully w0)) 2) as [H2|H2]; cbn in Hin.
-  - destruct Hin as [H|H]; [inversion H; subst; exact H2|exact (IH n w H)].
-  - exact (IH n w Hin).
-Qed.
 
 Lemma sync_deleted_keys old ds : forall n, In n (keys (fst (sync_deleted old ds))) -> In n (keys old) /\ lookup n ds = None.
 Proof.
@@ -183,13 +199,13 @@ Lemma do_sync_lookup s : NoDup (keys (cfg s)) -> forall n k, In (n, k) (cfg s) -
             ((lookup n (descs s) = Some d) \/
              ((forall od, lookup n (descs s) = Some od -> sd_cfg od <> k) /\ sd_pos d = 0 /\ next_id s <= sd_id d < next_id (do_sync s))).
 Proof.
-  intros ND n k Hin. unfold do_sync.
+  intros ND n k Hin. unfold do_sync, do_sync_f.
   pose proof (merge_spec (descs s) (cfg s) ND (next_id s) n k Hin) as (d & L & C & Hd).
   pose proof (merge_keys (descs s) (cfg s) (next_id s)) as Hk.
   destruct (merge_descs (descs s) (cfg s) (next_id s)) as [md nx] eqn:Em. cbn [fst snd] in *.
   assert (NDm : NoDup (keys md)) by (rewrite Hk; exact ND).
   pose proof (sync_new_lookup md (wmap s) NDm n d (lookup_in _ _ _ L)) as Hl.
-  destruct (sync_new md (wmap s)) as [w1 r1]. destruct (sync_deleted (wmap s) md) as [w2 r2]. cbn [fst] in Hl.
+  destruct (sync_new [] md (wmap s)) as [w1 r1]. destruct (sync_deleted (wmap s) md) as [w2 r2]. cbn [fst] in Hl.
   cbn [descs wmap next_id]. exists d. split; [exact L|]. split; [exact C|]. split; [|exact Hd].
   rewrite lookup_app, Hl. reflexivity.
 Qed.
@@ -210,30 +226,33 @@ Record sinv (s : sup) : Prop := {
   i_states : forall n w, In (n, w) (wmap s) -> sw_state w <= 2
 }.
 
-Lemma sync_new_entries ds old : forall n w, In (n, w) (fst (sync_new ds old)) ->
+Lemma sync_new_entries ns ds old : forall n w, In (n, w) (fst (sync_new ns ds old)) ->
   exists d, In (n, d) ds /\ w = new_entry d (lookup n old).
 Proof.
   induction ds as [|[n0 d0] ds IH]; intros n w Hin; [contradiction|]. cbn [sync_new] in Hin.
-  destruct (sync_new ds old) as [ws ret]. cbn [fst] in IH.
+  destruct (sync_new ns ds old) as [ws ret]. cbn [fst] in IH.
+  assert (Htail : In (n, w) ws -> exists d, In (n, d) ((n0, d0) :: ds) /\ w = new_entry d (lookup n old)).
+  { intros H. destruct (IH n w H) as (d & H1 & H2). exists d. split; [right; exact H1|exact H2]. }
   assert (Hhead : forall e, In (n, w) ((n0, e) :: ws) -> e = new_entry d0 (lookup n0 old) ->
                   exists d, In (n, d) ((n0, d0) :: ds) /\ w = new_entry d (lookup n old)).
-  { intros e [H|H] He.
-    - inversion H; subst. exists d0. split; [left; reflexivity|reflexivity].
-    - destruct (IH n w H) as (d & H1 & H2). exists d. split; [right; exact H1|exact H2]. }
+  { intros e [H|H] He; [|exact (Htail H)].
+    inversion H; subst. exists d0. split; [left; reflexivity|reflexivity]. }
   destruct (lookup n0 old) as [w0|] eqn:E.
-  - destruct (Nat.eqb (sw_state (if Nat.eqb (sd_id d0) (sw_desc w0) then w0 else stop_gracefully w0)) 2) eqn:E2; cbn in Hin.
-    + apply (Hhead _ Hin). unfold new_entry. cbn. rewrite E2. reflexivity.
-    + apply (Hhead _ Hin). unfold new_entry. cbn. rewrite E2. reflexivity.
-  - apply (Hhead _ Hin). reflexivity.
+  - destruct (Nat.eqb (sw_state (if Nat.eqb (sd_id d0) (sw_desc w0) then w0 else stop_gracefully w0)) 2) eqn:E2.
+    + destruct (in_names n0 ns); cbn in Hin; [exact (Htail Hin)|].
+      apply (Hhead _ Hin). unfold new_entry. cbn. rewrite E2. reflexivity.
+    + cbn in Hin. apply (Hhead _ Hin). unfold new_entry. cbn. rewrite E2. reflexivity.
+  - destruct (in_names n0 ns); cbn in Hin; [exact (Htail Hin)|]. apply (Hhead _ Hin). reflexivity.
 Qed.
 
-Lemma sync_new_retired_old ds old : forall n w, In (n, w) (snd (sync_new ds old)) -> sw_state w = 2 /\ In (n, w) old.
+Lemma sync_new_retired_old ns ds old : forall n w, In (n, w) (snd (sync_new ns ds old)) -> sw_state w = 2 /\ In (n, w) old.
 Proof.
   induction ds as [|[n0 d0] ds IH]; intros n w Hin; [contradiction|]. cbn [sync_new] in Hin.
-  destruct (sync_new ds old) as [ws ret]. cbn [snd] in IH.
-  destruct (lookup n0 old) as [w0|] eqn:E; [|exact (IH n w Hin)].
-  destruct (Nat.eqb_spec (sw_state (if Nat.eqb (sd_id d0) (sw_desc w0) then w0 else stop_gracefully w0)) 2) as [H2|H2]; cbn in Hin.
-  - destruct Hin as [H|H]; [|exact (IH n w H)]. inversion H; subst. split; [exact H2|].
+  destruct (sync_new ns ds old) as [ws ret]. cbn [snd] in IH.
+  destruct (lookup n0 old) as [w0|] eqn:E; [|destruct (in_names n0 ns); exact (IH n w Hin)].
+  destruct (Nat.eqb_spec (sw_state (if Nat.eqb (sd_id d0) (sw_desc w0) then w0 else stop_gracefully w0)) 2) as [H2|H2].
+  - assert (Hc : In (n, w) ((n0, if Nat.eqb (sd_id d0) (sw_desc w0) then w0 else stop_gracefully w0) :: ret)) by (destruct (in_names n0 ns); exact Hin).
+    destruct Hc as [H|H]; [|exact (IH n w H)]. inversion H; subst. split; [exact H2|].
     assert (Hw : (if Nat.eqb (sd_id d0) (sw_desc w0) then w0 else stop_gracefully w0) = w0).
     { destruct (Nat.eqb (sd_id d0) (sw_desc w0)); [reflexivity|]. unfold stop_gracefully in *.
       destruct (Nat.eqb_spec (sw_state w0) 0) as [H0|H0]; [cbn in H2; discriminate|reflexivity]. }
@@ -274,18 +293,19 @@ Proof.
   - apply IH; [assumption|assumption|]. intros y Hy. apply D. right. exact Hy.
 Qed.
 
-Lemma do_sync_inv s : sinv s -> sinv (do_sync s).
+Lemma do_sync_f_inv ns s : sinv s -> sinv (do_sync_f ns s).
 Proof.
-  intros [Icfg Iwk Ial Iret Idid Iwid Istop Ist]. unfold do_sync.
+  intros [Icfg Iwk Ial Iret Idid Iwid Istop Ist]. unfold do_sync_f.
   pose proof (merge_keys (descs s) (cfg s) (next_id s)) as Hk.
   pose proof (merge_ids (descs s) (cfg s) (next_id s)) as Hids.
   pose proof (merge_next_le (descs s) (cfg s) (next_id s)) as Hle.
   destruct (merge_descs (descs s) (cfg s) (next_id s)) as [md nx] eqn:Em. cbn [fst snd] in *.
   assert (NDm : NoDup (keys md)) by (rewrite Hk; exact Icfg).
-  pose proof (sync_new_keys md (wmap s)) as Hk1.
-  pose proof (sync_new_entries md (wmap s)) as He1.
-  pose proof (sync_new_retired_old md (wmap s)) as Hr1.
-  destruct (sync_new md (wmap s)) as [w1 r1] eqn:E1. cbn [fst snd] in *.
+  pose proof (sync_new_keys_sub ns md (wmap s)) as Hk1.
+  pose proof (sync_new_nodup ns md (wmap s) NDm) as Hnd1.
+  pose proof (sync_new_entries ns md (wmap s)) as He1.
+  pose proof (sync_new_retired_old ns md (wmap s)) as Hr1.
+  destruct (sync_new ns md (wmap s)) as [w1 r1] eqn:E1. cbn [fst snd] in *.
   pose proof (sync_deleted_keys (wmap s) md) as Hk2.
   pose proof (sync_deleted_entries (wmap s) md) as He2.
   pose proof (sync_deleted_retired_old (wmap s) md) as Hr2.
@@ -310,9 +330,9 @@ Proof.
   constructor; cbn [cfg wmap retired descs next_id].
   - exact Icfg.
   - unfold keys. rewrite map_app. apply nodup_app_disjoint.
-    + fold (keys w1). rewrite Hk1. exact NDm.
+    + exact Hnd1.
     + exact Hn2.
-    + fold (keys w1) (keys w2). intros x Hx Hx2. rewrite Hk1 in Hx. destruct (Hk2 x Hx2) as [_ Hnone].
+    + fold (keys w1) (keys w2). intros x Hx Hx2. apply Hk1 in Hx. destruct (Hk2 x Hx2) as [_ Hnone].
       apply lookup_none_keys in Hnone. contradiction.
   - intros n w Hin. apply in_app_iff in Hin as [Hin|Hin].
     + destruct (Hent n w Hin) as (d & _ & [->|(w0 & Hin0 & H2 & [[-> _]|[-> _]])]); [reflexivity|exact (Ial n w0 Hin0)|].
@@ -352,6 +372,9 @@ Proof.
       exact (proj1 (stop_state w0 (Ist n w0 Hin0))).
     + destruct (He2 n w Hin) as (w0 & Hin0 & -> & _). exact (proj1 (stop_state w0 (Ist n w0 Hin0))).
 Qed.
+
+Lemma do_sync_inv s : sinv s -> sinv (do_sync s).
+Proof. apply do_sync_f_inv. Qed.
 
 (* ---------------- the other events ---------------- *)
 
@@ -394,16 +417,16 @@ Qed.
 
 Definition valid_ev (e : sev) : Prop :=
   match e with
-  | SSync (Some c) => NoDup (keys c)
-  | SRestart c => NoDup (keys c)
+  | SSync (Some c) _ => NoDup (keys c)
+  | SRestart c _ => NoDup (keys c)
   | _ => True
   end.
 
 Lemma sstep_inv s e : valid_ev e -> sinv s -> sinv (sstep true s e).
 Proof.
-  intros Hv I. destruct e as [[c|]|n|n|n k| |c]; cbn [sstep].
-  - apply do_sync_inv. destruct I. constructor; cbn; assumption.
-  - apply do_sync_inv. exact I.
+  intros Hv I. destruct e as [[c|] ns|n|n|n k| |c ns]; cbn [sstep].
+  - apply do_sync_f_inv. destruct I. constructor; cbn; assumption.
+  - apply do_sync_f_inv. exact I.
   - (* SExit *)
     destruct I as [Icfg Iwk Ial Iret Idid Iwid Istop Ist]. constructor; cbn [cfg wmap retired descs next_id]; try assumption.
     + rewrite upd_keys. exact Iwk.
@@ -438,7 +461,7 @@ Proof.
     destruct I. constructor; cbn; assumption.
   - (* SRestart *)
     pose proof (load_ids (stored s) (next_id s)) as Hl. destruct (load_descs (stored s) (next_id s)) as [ld nx]. cbn [fst snd] in Hl.
-    apply do_sync_inv. constructor; cbn [cfg wmap retired descs next_id].
+    apply do_sync_f_inv. constructor; cbn [cfg wmap retired descs next_id].
     + exact Hv.
     + constructor.
     + intros ? ? [].
@@ -455,9 +478,9 @@ Proof.
   inversion Hv; subst. apply IH; [assumption|]. apply sstep_inv; assumption.
 Qed.
 
-Lemma sup0_inv c : NoDup (keys c) -> sinv (sup0 c).
+Lemma sup0_f_inv ns c : NoDup (keys c) -> sinv (sup0_f ns c).
 Proof.
-  intros ND. unfold sup0. apply do_sync_inv. constructor; cbn [cfg wmap retired descs next_id].
+  intros ND. unfold sup0_f. apply do_sync_f_inv. constructor; cbn [cfg wmap retired descs next_id].
   - exact ND.
   - constructor.
   - intros ? ? [].
@@ -467,6 +490,9 @@ Proof.
   - intros ? ? ? [].
   - intros ? ? [].
 Qed.
+
+Lemma sup0_inv c : NoDup (keys c) -> sinv (sup0 c).
+Proof. apply sup0_f_inv. Qed.
 
 (* ---------------- what the invariant says ---------------- *)
 
@@ -494,7 +520,7 @@ Proof.
 Qed.
 
 Lemma do_sync_cfg s : cfg (do_sync s) = cfg s.
-Proof. unfold do_sync. destruct (merge_descs _ _ _). destruct (sync_new _ _). destruct (sync_deleted _ _). reflexivity. Qed.
+Proof. unfold do_sync, do_sync_f. destruct (merge_descs _ _ _). destruct (sync_new _ _ _). destruct (sync_deleted _ _). reflexivity. Qed.
 
 Lemma two_syncs_settle s : sinv s -> settled (do_sync (exit_all (do_sync s))).
 Proof.
@@ -541,10 +567,45 @@ Qed.
 (* the code before the repair: a start failure leaves a worker that is neither stopped nor alive in the map, and no
    number of syncs replaces it *)
 Lemma unmarked_start_failure_sticks : forall k,
-  let s := srun false (SStartFail 7 :: repeat (SSync None) k) (sup0 [(7, 1)]) in
+  let s := srun false (SStartFail 7 :: repeat (SSync None []) k) (sup0 [(7, 1)]) in
   lookup 7 (wmap s) = Some (mkW 0 0 false).
 Proof.
   intros k. cbn [srun fold_left]. set (s0 := sstep false (sup0 [(7, 1)]) (SStartFail 7)).
   assert (H0 : s0 = mkSup [(7, mkD 0 1 0)] [(7, mkW 0 0 false)] [] [(7, 1)] [] 1) by (vm_compute; reflexivity).
   rewrite H0. clear. induction k as [|k IH]; [reflexivity|]. cbn [repeat fold_left]. exact IH.
+Qed.
+
+(* a name whose sink cannot be created gets no worker: when it had none, or a stopped one, it has no entry afterwards *)
+Lemma sync_new_nosink ns ds old n : in_names n ns = true -> (forall w, lookup n old = Some w -> sw_state w = 2) ->
+  ~ In n (keys (fst (sync_new ns ds old))).
+Proof.
+  intros Hns Hst. induction ds as [|[n0 d] ds IH]; cbn [sync_new]; [intros []|].
+  destruct (sync_new ns ds old) as [ws ret]. cbn [fst] in IH.
+  destruct (Nat.eqb_spec n0 n) as [->|Hne].
+  - rewrite Hns. destruct (lookup n old) as [w|] eqn:E; [|exact IH].
+    assert (H2 : sw_state (if Nat.eqb (sd_id d) (sw_desc w) then w else stop_gracefully w) = 2).
+    { specialize (Hst w eq_refl). destruct (Nat.eqb (sd_id d) (sw_desc w)); [exact Hst|].
+      unfold stop_gracefully. rewrite Hst. cbn. exact Hst. }
+    rewrite H2. cbn. exact IH.
+  - assert (Hk : forall e, ~ In n (keys ((n0, e) :: ws))) by (intros e [H|H]; [exact (Hne H)|exact (IH H)]).
+    destruct (lookup n0 old) as [w|].
+    + destruct (Nat.eqb (sw_state (if Nat.eqb (sd_id d) (sw_desc w) then w else stop_gracefully w)) 2).
+      * destruct (in_names n0 ns); [exact IH|apply Hk].
+      * apply Hk.
+    + destruct (in_names n0 ns); [exact IH|apply Hk].
+Qed.
+
+Lemma no_sink_no_worker ns s n : sinv s -> in_names n ns = true ->
+  (forall w, lookup n (wmap s) = Some w -> sw_state w = 2) ->
+  lookup n (wmap (do_sync_f ns s)) = None \/ ~ In n (keys (cfg s)).
+Proof.
+  intros I Hns Hst. destruct (in_dec Nat.eq_dec n (keys (cfg s))) as [Hin|Hnin]; [left|right; exact Hnin].
+  unfold do_sync_f. pose proof (merge_keys (descs s) (cfg s) (next_id s)) as Hk.
+  destruct (merge_descs (descs s) (cfg s) (next_id s)) as [md nx]. cbn [fst] in Hk.
+  pose proof (sync_new_nosink ns md (wmap s) n Hns Hst) as H1.
+  destruct (sync_new ns md (wmap s)) as [w1 r1]. cbn [fst] in H1.
+  pose proof (sync_deleted_keys (wmap s) md n) as H2.
+  destruct (sync_deleted (wmap s) md) as [w2 r2]. cbn [fst wmap] in *.
+  apply lookup_none_keys. unfold keys. rewrite map_app. intros Hx. apply in_app_iff in Hx as [Hx|Hx]; [exact (H1 Hx)|].
+  destruct (H2 Hx) as [_ Hnone]. apply lookup_none_keys in Hnone. apply Hnone. rewrite Hk. exact Hin.
 Qed.
